@@ -544,6 +544,7 @@ def cli_faults(ctx, budget_s):
     shutil.rmtree(work, ignore_errors=True)
     os.makedirs(work)
     kinds = ["tiny", "small"] if ctx.tier == "quick" else ["tiny", "small", "three", "big"]
+    kinds = getattr(ctx, "c15_kinds", None) or kinds       # the search after a broken obligation forces the > 4 MiB archive
     stats = []
     per = budget_s / len(kinds)
     try:
@@ -778,7 +779,11 @@ def search(ctx, budget):
     res = vlib.run_impl(PROP, cases)
     found = [(c, i, oracle(c, i)) for c, i in zip(cases, res) if oracle(c, i)]
     if not found:
-        for kind, name, detail, fail in cli_faults(ctx, 120 if budget <= 20 else 900):
+        # a `?` that only matters once the BufWriter spills (> 4 MiB archives) or only in the footer: enumerate faults on
+        # the big archive too, whatever the tier (a seeded change that dropped flush_buffers' error went without a failing
+        # input in the quick tier before this)
+        ctx.c15_kinds = ["big", "small"]
+        for kind, name, detail, fail in cli_faults(ctx, 420 if budget <= 20 else 1200):
             if fail is not None:
                 found.append(fail)
     return found, len(cases)
